@@ -30,6 +30,10 @@ func init() {
 			{"C13.R6b", "q", "merge flushes its last group on every path", c13r6b},
 			{"C14.R4", "q", "shared: hint file order and index search (lookup of colliding keys goes through it)", c14r4},
 			{"C18.R2", "q", "shared: keep table (collision entries)", c18r2},
+			{"C14.R10", "q", "shared: hint lookups are newest-first", c14r10},
+			{"C14.R11", "q", "shared: an item is never dropped when a split is full", c14r11},
+			{"C13.R11", "q", "collision table persistence: dump/load pair and serialised fields", c13r11},
+			{"C13.R12", "q", "collision table replacement rule (new key, GC move, not-lower position)", c13r12},
 		},
 	})
 }
